@@ -52,6 +52,8 @@ type listener struct {
 	ln           net.Listener
 	conns        map[net.Conn]struct{}
 	stopped      bool // set by Stop: no further connection is registered
+	serving      bool // set by Serve when it begins
+	draining     bool // set by Drain
 	connsWg      sync.WaitGroup
 	connHandleFn ConnHandlerFunc
 
@@ -84,6 +86,18 @@ func NewListener(cfg *service.Listener, stats *DownstreamStats, logger log.Logge
 }
 
 func (l *listener) Serve() error {
+	// Stop waits for done only when Serve has begun, and Serve signals done on
+	// every way out (it used to return from the bind loop without it, and Stop
+	// waited for ever).
+	l.mu.Lock()
+	if l.stopped {
+		l.mu.Unlock()
+		return nil
+	}
+	l.serving = true
+	l.mu.Unlock()
+	defer close(l.done)
+
 	ip := l.cfg.GetAddress().GetIp()
 	port := l.cfg.GetAddress().GetPort()
 	address := fmt.Sprintf("%s:%d", ip, port)
@@ -116,14 +130,22 @@ func (l *listener) Serve() error {
 		}
 	}
 
+	// Stop or Drain may have come in while binding: they did not see the
+	// socket, so nobody else would close it.
+	l.mu.Lock()
 	l.ln = ln
+	over := l.stopped || l.draining
+	l.mu.Unlock()
+	if over {
+		ln.Close()
+		return nil
+	}
 	l.Infof("start serving at %s", ln.Addr().String())
 	l.serve()
 	l.Infof("stop serving at %s, waiting all conns done", ln.Addr().String())
 
 	l.connsWg.Wait()
 	l.Infof("all conns done")
-	close(l.done)
 	return nil
 }
 
@@ -253,8 +275,12 @@ func (l *listener) Drain() error {
 	l.drainOnce.Do(func() {
 		close(l.drain)
 	})
-	if l.ln != nil {
-		l.ln.Close()
+	l.mu.Lock()
+	l.draining = true
+	ln := l.ln
+	l.mu.Unlock()
+	if ln != nil {
+		ln.Close()
 	}
 	return nil
 }
@@ -268,18 +294,22 @@ func (l *listener) Stop() error {
 	// removeConn still accounts for them (destroyed counter, active gauge).
 	l.mu.Lock()
 	l.stopped = true
+	serving := l.serving
+	ln := l.ln
 	conns := make([]net.Conn, 0, len(l.conns))
 	for conn := range l.conns {
 		conns = append(conns, conn)
 	}
 	l.mu.Unlock()
 
-	if l.ln != nil {
-		l.ln.Close()
+	if ln != nil {
+		ln.Close()
 	}
 	for _, conn := range conns {
 		conn.Close()
 	}
-	<-l.done
+	if serving {
+		<-l.done
+	}
 	return nil
 }
